@@ -101,6 +101,15 @@ def documents(rng, n, depth=4, deep_every=25, f32=False):
                 out.append(("yaml", back[0], t))
         except Exception:
             continue
+    # a string of multi-byte characters longer than any read buffer, at four alignments (whatever buffer a hop refills, some
+    # refill ends inside a character)
+    for fmt in ("json", "yaml"):
+        for shift in range(4):
+            v = {"k" + "x" * shift: "\u00e9\u20ac\U0001f600" * 5000}
+            try:
+                out.append((fmt, v, gen.spell_canonical(v, fmt)))
+            except Exception:
+                continue
     # collections longer than any 16-bit length field or pre-allocation cap
     for fmt in ("msgpack", "json"):
         for v in ({"arr": [i % 10 for i in range(40000)]}, {"m": {"k%d" % i: i % 3 for i in range(33000)}}):
